@@ -94,7 +94,9 @@ impl Plugin for ServerEventPlugin {
                 PreUpdate,
                 (
                     receive.run_if(server_running),
-                    trigger.run_if(server_or_singleplayer),
+                    // Triggers events that were received or resent locally on the previous frame,
+                    // even if the connection state changed since then.
+                    trigger,
                 )
                     .chain()
                     .in_set(ServerSet::Receive),
